@@ -5,6 +5,7 @@ import (
 	"context"
 	"fmt"
 	"sort"
+	"time"
 
 	"verif/harness"
 	"verif/sim"
@@ -437,6 +438,35 @@ func execC12(rc *harness.RunCtx, p *harness.Plan, cfg *Config, rawOps []c12Op) *
 		}
 	}
 	rc.Env.Faults = nil
+	// Afterwards, once every straggling replica write has landed: what a
+	// replica keeps under a ref is that blob - or, where a short-store fault
+	// was injected into some receive of this run, that blob cut short (the
+	// misbehaving replica of the fault model); never other bytes.
+	anyShort := false
+	for _, op := range rawOps {
+		for _, k := range op.Fail {
+			if k == sim.FShortStore {
+				anyShort = true
+			}
+		}
+	}
+	if herr := s.task(func() { time.Sleep(30 * time.Second) }); herr == nil {
+		for _, nd := range root.Kids {
+			st := s.world.Store(nd.Name)
+			for _, ref := range st.Refs() {
+				b := s.byRef(ref)
+				d, _ := st.Get(ref)
+				if b == nil || bytes.Equal(d, b.Data) {
+					continue
+				}
+				if anyShort && len(d) < len(b.Data) && bytes.Equal(d, b.Data[:len(d)]) {
+					continue
+				}
+				return fail(len(rawOps), "replica-holds-foreign-bytes", fmt.Sprintf("replica %s keeps %d bytes under %s that are not that blob's (%d bytes)", nd.Name, len(d), ref, len(b.Data)))
+			}
+		}
+		out.Reached["replica-contents-swept"]++
+	}
 	kinds := ""
 	for _, op := range rawOps {
 		kinds += op.Kind[:1]
